@@ -209,6 +209,8 @@ def pipe_read(ctx, o, cname):
     if fd is None or cnt is None:
         return "the descriptor / count registers are not read", None, None
     touched = {e[3] for e in o.path.events if e[0] == "map" and e[2] == "pipe_contents"}
+    if not touched:
+        return None, None, "Handled although RDI was never looked up in the pipe buffers"
     if touched != {fd}:
         kbad = "buffer entries used: %s, expected only contents[RDI]" % sorted(A.show(k)[:40] for k in touched)
         return kbad, None, None
@@ -228,17 +230,33 @@ def pipe_read(ctx, o, cname):
     final = roots(o, "pipe_contents").get(fd)
     mw = [e for e in o.path.events if e[0] == "mem_write" and e[1] == "bytes"]
     rax = [e for e in o.path.events if e[0] == "reg_write" and U.reg_name(facts, e[2]) == "RAX"]
-    if len(mw) != 1 or len(rax) != 1:
+    # a path that has established count == 0 (or an empty buffer) transfers nothing: m = 0
+    zero_cnt = any(o.path.facts.get(t_) == ("eq", 0) for t_ in (cnt, A.W(cnt, 64)))
+    zero_len = any(o.path.facts.get(t_) == ("eq", 0) for t_ in (LENB, A.W(LENB, 64)))
+    if (zero_cnt and cname == "count>len") or (zero_len and cname == "count<len"):
+        return kbad, None, pbad  # contradicts the class: not a feasible path
+    zero = zero_cnt or zero_len
+    if zero:
+        m = A.INT(0, 64)
+    if len(mw) > 1 or len(rax) != 1 or (not mw and not zero):
         return kbad, "guest writes=%d RAX writes=%d" % (len(mw), len(rax)), pbad
-    if not reg_leaf(facts, mw[0][2], "RSI"):
+    if mw and not reg_leaf(facts, mw[0][2], "RSI"):
         sbad = sbad or "bytes delivered to %s, not to the buffer in RSI" % A.show(mw[0][2])[:40]
     want_d = SQ.normal_form(SQ.mk_slice(B, None, m), sub)
     want_k = SQ.normal_form(SQ.mk_slice(B, m, None), sub)
-    got_d = SQ.normal_form(mw[0][3], sub) if SQ.is_seq(mw[0][3]) else None
+    got_d = [] if not mw else SQ.normal_form(mw[0][3], sub) if SQ.is_seq(mw[0][3]) else None
     got_k = SQ.normal_form(final, sub) if final is not None and SQ.is_seq(final) else None
-    if got_d != want_d:
+    if zero:
+        # nothing delivered; the buffer keeps all of B (which is empty itself when its length is the zero count)
+        want_d = []
+        whole = SQ.normal_form(B, sub)
+        if got_d not in ([], want_d) and not (cname != "count<len" and got_d == whole):
+            sbad = sbad or "%s, nothing to transfer: delivers %s" % (cname, SQ.show_nf(got_d))
+        if got_k != whole and not (cname != "count<len" and got_k == []):
+            sbad = sbad or "%s, nothing to transfer: keeps %s, expected %s" % (cname, SQ.show_nf(got_k), SQ.show_nf(whole))
+    elif got_d != want_d:
         sbad = sbad or "%s: delivers %s, expected %s" % (cname, SQ.show_nf(got_d), SQ.show_nf(want_d))
-    if got_k != want_k:
+    if not zero and got_k != want_k:
         sbad = sbad or "%s: keeps %s, expected %s" % (cname, SQ.show_nf(got_k), SQ.show_nf(want_k))
     if not U.affine_eq(SQ.subst(rax[0][3], sub), SQ.subst(m, sub)):
         sbad = sbad or "%s: returns %s, expected %s" % (cname, A.show(U.strip(rax[0][3]))[:40], A.show(U.strip(m))[:40])
